@@ -72,6 +72,14 @@ V_ScriptParse(e) ==          \* e.inp = tape; e.res.v = [cmds, used]
      ELSE IF Raised(e) THEN "parse-raised-on-valid"
      ELSE IF e.res.v.cmds # p.cmds THEN "parse-cmds"
      ELSE IF e.res.v.used # p.used THEN "parse-consumed"
+     \* the PARSED object serialises like any script with these commands: standard minimal pushes, or a refusal when
+     \* an element is over 520 bytes (whatever the bytes it was parsed from looked like)
+     ELSE IF "reser" \in DOMAIN e.res.v /\ ~HasEmptyElem(p.cmds)
+          THEN LET r == RawSerializeScript(p.cmds)
+               IN IF ~r.ok THEN (IF e.res.v.reser.ok THEN "parse-then-serialise-accepted-oversize-element" ELSE "ok")
+                  ELSE IF ~e.res.v.reser.ok THEN "parse-then-serialise-refused-legal-script"
+                  ELSE IF e.res.v.reser.bytes # r.bytes THEN "parse-then-serialise-not-standard-form"
+                  ELSE "ok"
      ELSE "ok"
 
 V_VarintEnc(e) ==            \* e.inp = LE value bytes
@@ -137,7 +145,9 @@ FoldOf(e, list) == IF HasFold(e, list)
 FoldRepr(e, list) == e.fold[CHOOSE j \in 1..Len(e.fold) : e.fold[j].list = list].repr
 InRange(lst) == \A i \in 1..Len(lst) : Len(lst[i]) = 4
 \* the named deviation of the pinned code: everything after the fifth component is ignored
-TailIgnoredList(str) == LET t == Parse(TruncatedString(str)) IN IF t.kind = "ok" THEN t.list ELSE << <<-2>> >>
+\* (the truncated string may itself end in '/', which the statement leaves open: its evident list counts too)
+TailIgnoredList(str) == LET t == Parse(TruncatedString(str))
+                        IN IF t.kind = "ok" \/ (t.kind = "either" /\ t.why = "lenient-evident") THEN t.list ELSE << <<-2>> >>
 
 V_PathParse(e) ==            \* e.inp = str; e.res.v = [list, str, private]
   LET p == Parse(e.inp)
